@@ -2670,7 +2670,11 @@ def generate(pid: str, repo: str):
                 by_mod.setdefault((spec['module'], spec.get('gen_file')), []).append(spec)
     files, infos = {}, []
     for module_name, gen in sorted(by_mod, key=lambda x: (x[0], x[1] or '')):
-        text, inf = translate_module(module_name, by_mod[(module_name, gen)], repo)
+        tr_mod = by_mod[(module_name, gen)][0].get('translator')     # spec key `translator`: a translator module of its own
+        if tr_mod:
+            text, inf = importlib.import_module(tr_mod).translate_module(module_name, by_mod[(module_name, gen)], repo)
+        else:
+            text, inf = translate_module(module_name, by_mod[(module_name, gen)], repo)
         files['Src_%s.lean' % (gen or module_name.split('.')[-1])] = text
         infos.extend(inf)
     return files, infos
